@@ -99,8 +99,18 @@ func (ev *dtEval) canon(x ast.Expr, fr *dtFrame) string {
 		}
 		return v.Name
 	case *ast.SelectorExpr:
+		if id, ok := an.Unparen(v.X).(*ast.Ident); ok {
+			if tgt := ev.ptrAliasOf(id, fr); tgt != nil {
+				return ev.canon(tgt, fr) + "." + v.Sel.Name
+			}
+		}
 		return ev.canon(v.X, fr) + "." + v.Sel.Name
 	case *ast.StarExpr:
+		if id, ok := an.Unparen(v.X).(*ast.Ident); ok {
+			if tgt := ev.ptrAliasOf(id, fr); tgt != nil {
+				return ev.canon(tgt, fr)
+			}
+		}
 		return "*" + ev.canon(v.X, fr)
 	case *ast.CallExpr:
 		var args []string
@@ -1082,6 +1092,93 @@ func (ev *dtEval) aliasOf(v *ast.Ident, fr *dtFrame) (def ast.Expr, paren bool) 
 		return d, true
 	}
 	return nil, false
+}
+
+// ptrAliasOf: the single-definition local p was defined `p := &E` with E a call-free location (fields and elements of
+// the receiver's state), and between the definition and the use nothing changes which location E denotes: no write to a
+// local E mentions, and the conditions of stableAlias for the receiver state E reads (writes through p itself change
+// the content of the location, which `p.f` and `E.f` both see). Then `p.f` is `E.f` and `*p` is E.
+func (ev *dtEval) ptrAliasOf(v *ast.Ident, fr *dtFrame) ast.Expr {
+	if !dtResolvePure || ev.root == nil || len(fr.subst) != 0 || ev.keep[v.Name] {
+		return nil
+	}
+	o := fr.info.ObjectOf(v)
+	if o == nil {
+		return nil
+	}
+	if _, isVar := o.(*types.Var); !isVar || o.Pos() < ev.root.Pos() || o.Pos() >= ev.root.End() {
+		return nil
+	}
+	d := an.SingleDef(fr.info, ev.root, o)
+	if d == nil {
+		return nil
+	}
+	u, ok := an.Unparen(d).(*ast.UnaryExpr)
+	if !ok || u.Op != token.AND {
+		return nil
+	}
+	tgt := u.X
+	switch an.Unparen(tgt).(type) {
+	case *ast.IndexExpr, *ast.SelectorExpr:
+	default:
+		return nil
+	}
+	if !ev.callFree(tgt) || !ev.stableAlias(tgt, v, fr) {
+		return nil
+	}
+	// locals the location mentions are not written between the definition and the use (nor later in a loop around the
+	// use that does not contain the definition)
+	lo, hi := d.End(), v.Pos()
+	ast.Inspect(ev.root, func(m ast.Node) bool {
+		switch m.(type) {
+		case *ast.ForStmt, *ast.RangeStmt:
+			if m.Pos() <= v.Pos() && v.End() <= m.End() && !(m.Pos() <= d.Pos() && d.End() <= m.End()) && m.End() > hi {
+				hi = m.End()
+			}
+		}
+		return true
+	})
+	locals := map[types.Object]bool{}
+	ast.Inspect(tgt, func(m ast.Node) bool {
+		if id, ok := m.(*ast.Ident); ok {
+			if lo := fr.info.ObjectOf(id); lo != nil && lo != fr.recv {
+				if lv, isVar := lo.(*types.Var); isVar && !lv.IsField() {
+					locals[lo] = true
+				}
+			}
+		}
+		return true
+	})
+	okRes := true
+	ast.Inspect(ev.root, func(m ast.Node) bool {
+		if m == nil || !okRes {
+			return false
+		}
+		if m.End() <= lo || m.Pos() >= hi {
+			return m.Pos() < hi && m.End() > lo
+		}
+		switch x := m.(type) {
+		case *ast.AssignStmt:
+			for _, l := range x.Lhs {
+				if id, ok := an.Unparen(l).(*ast.Ident); ok && locals[fr.info.ObjectOf(id)] && m.Pos() >= lo {
+					okRes = false
+				}
+			}
+		case *ast.IncDecStmt:
+			if id, ok := an.Unparen(x.X).(*ast.Ident); ok && locals[fr.info.ObjectOf(id)] && m.Pos() >= lo {
+				okRes = false
+			}
+		case *ast.UnaryExpr:
+			if id, ok := an.Unparen(x.X).(*ast.Ident); ok && x.Op == token.AND && locals[fr.info.ObjectOf(id)] {
+				okRes = false
+			}
+		}
+		return okRes
+	})
+	if !okRes {
+		return nil
+	}
+	return tgt
 }
 
 // stableAlias: def reads receiver state, and between the definition and the use (through the end of any loop around the
